@@ -12,20 +12,22 @@ Import ListNotations.
 Lemma R_sub d : forall s ss, R s ss -> R (st_sub d s) (ssub d ss).
 Proof.
   induction d as [|d IH]; intros s ss H; [exact H|].
-  destruct s as [e m|o|o u|p u|u]; destruct ss as [m'|log su|p' su|su]; cbn in *; try tauto.
+  destruct s as [e m|o|o u|p u|u|o i u]; destruct ss as [m'|log su|p' su|su|log i' su]; cbn in *; try tauto.
   - apply IH. tauto.
   - apply IH. tauto.
   - now apply IH.
+  - apply IH. tauto.
 Qed.
 
 Lemma R_upd d f g : forall s ss, R s ss ->
   R (f (st_sub d s)) (g (ssub d ss)) -> R (st_upd d f s) (supd d g ss).
 Proof.
   induction d as [|d IH]; intros s ss H Hf; [exact Hf|].
-  destruct s as [e m|o|o u|p u|u]; destruct ss as [m'|log su|p' su|su]; cbn in *; try tauto.
+  destruct s as [e m|o|o u|p u|u|o i u]; destruct ss as [m'|log su|p' su|su|log i' su]; cbn in *; try tauto.
   - destruct H as (So & Wo & Hl & Ru). repeat split; auto.
   - destruct H as (E & Wp & Ru). repeat split; auto.
   - auto.
+  - destruct H as (E & So & Wo & Hl & Ru). repeat split; auto.
 Qed.
 
 Definition h_wf (h : handle) : Prop := Forall (fun p => wf_bytes p = true) (h_path h).
@@ -40,7 +42,7 @@ Qed.
 Lemma R_unwrap n : forall x y, R x y -> R (hunwrap n x) (sunwrap n y).
 Proof.
   induction n as [|n IH]; intros x y H; [exact H|].
-  destruct x as [e m|o|o u|p u|u]; destruct y as [m'|log su|p' su|su]; cbn in *; try tauto.
+  destruct x as [e m|o|o u|p u|u|o i u]; destruct y as [m'|log su|p' su|su|log i' su]; cbn in *; try tauto.
   apply IH. tauto.
 Qed.
 
@@ -62,6 +64,7 @@ Fixpoint sk (a b : st) : Prop :=
   | Flu _ u, Flu _ u' => sk u u'
   | Tab p u, Tab p' u' => p = p' /\ sk u u'
   | Syn u, Syn u' => sk u u'
+  | Lzy _ _ u, Lzy _ _ u' => sk u u'
   | _, _ => False
   end.
 
@@ -78,7 +81,7 @@ Proof. rewrite st_del_write. apply sk_bwrite. Qed.
 
 Lemma sk_flush ideal s : sk (st_flush ideal s) s.
 Proof.
-  destruct s; cbn; auto using sk_refl. rewrite st_flush_into_write. apply sk_bwrite.
+  destruct s; cbn; auto using sk_refl; rewrite st_flush_into_write; apply sk_bwrite.
 Qed.
 Lemma sk_drop s : sk (st_drop s) s.
 Proof. destruct s; cbn; auto using sk_refl. Qed.
@@ -126,7 +129,7 @@ Qed.
 
 Lemma sk_bkey a : forall b k, sk a b -> st_bkey a k = st_bkey b k.
 Proof.
-  induction a as [e m|o|o u IH|p u IH|u IH]; intros [e' m'|o'|o' u'|p' u'|u'] k H; cbn in *; try tauto.
+  induction a as [e m|o|o u IH|p u IH|u IH|o i u IH]; intros [e' m'|o'|o' u'|p' u'|u'|o' i' u'] k H; cbn in *; try tauto.
   - destruct H as [-> H]. now apply IH.
   - now apply IH.
 Qed.
@@ -137,7 +140,7 @@ Proof. intros H. destruct w; cbn; now rewrite (sk_bkey a b _ H). Qed.
 (* Replay undoes the prefixing done by batch.Put *)
 Lemma st_rkey_bkey s : forall k, st_rkey s (st_bkey s k) = k.
 Proof.
-  induction s as [e m|o|o u IH|p u IH|u IH]; intros k; cbn; auto.
+  induction s as [e m|o|o u IH|p u IH|u IH|o i u IH]; intros k; cbn; auto.
   rewrite IH. apply no_prefix_prefixed.
 Qed.
 
@@ -212,7 +215,7 @@ Definition op_wf (o : op) : Prop :=
   | _ => True
   end.
 
-Definition erase (o : obs) : obs := match o with BCompact _ _ => BNone | x => x end.
+Definition erase (o : obs) : obs := match o with BCompact _ => BNone | x => x end.
 
 Lemma R_put x y k v : wf_bytes k = true -> R x y -> R (st_put x k v) (swrite y [WPut k v]).
 Proof.
